@@ -796,7 +796,15 @@ func checkFont(t fataler, fc *fontCase) {
 	add(lbl(bulging > 0, "curve-extremum-not-at-node"))
 	add(lbl(extreme, "extreme-field"))
 	add(lbl(wTail >= 2 && wTail < n, "tail:2..n-1"))
-	stats.CaseIn("font", stats.Hash(data), nt, func() string { return fc.desc }, labels...)
+	seen := map[string]bool{}
+	uniq := labels[:0]
+	for _, l := range labels { // per-glyph labels count once per case
+		if l != "" && !seen[l] {
+			seen[l] = true
+			uniq = append(uniq, l)
+		}
+	}
+	stats.CaseIn("font", stats.Hash(data), nt, func() string { return fc.desc }, uniq...)
 }
 
 // modelFixedPitch: all non-zero widths agree.  For fractional widths the
